@@ -435,4 +435,24 @@ Section EndToEnd.
     - intros w k Hk H. apply T'_none_iff. apply T'_none_iff in H. apply (i_ctx _ _ _ Inv w k Hk H).
     - intros k H. apply T'_none_iff in H. apply (i_len _ _ _ Inv k H).
   Qed.
+
+  (* the two extra hypotheses of the chart-scoring theorems (C08) transfer as well *)
+  Lemma mem_table_rest : forall k e', T' k = Some e' -> e_rest e' = e_prob e'.
+  Proof.
+    intros k e' H. unfold T', mem_table in H.
+    destruct (forallb (fun w => Z.of_N w <? V) k); [|discriminate]. destruct k as [|w ks]; [discriminate|].
+    destruct (twalk array (trie_mem array cfg n t pz) (zkey (w :: ks))) as [[r|]|]; try discriminate.
+    remember (Nat.eqb (length (w :: ks)) n) as lg. injection H as <-. unfold entry_of_lookup. destruct r as [[v lo] hi]. destruct lg; reflexivity.
+  Qed.
+
+  Lemma mem_table_ext_ctx :
+    (forall k e, T k = Some e -> e_ext e = true -> (2 <= length k)%nat -> exists x, T (x :: k) <> None) ->
+    forall k e', T' k = Some e' -> e_ext e' = true -> (2 <= length k)%nat -> exists x, T' (x :: k) <> None.
+  Proof.
+    intros Hx k e' H He Hl. destruct (T'_some k e' H) as [e [ET [_ [_ [A B]]]]].
+    assert (Hlen : (1 <= length k <= n)%nat) by (apply (i_len _ _ _ Inv k); rewrite ET; discriminate).
+    destruct (Nat.eq_dec (length k) n) as [Eln|Nln]; [rewrite (B Eln) in He; discriminate|].
+    destruct (A ltac:(lia)) as [Ee _]. rewrite Ee in He. destruct (Hx k e ET He Hl) as [x Hxx].
+    exists x. apply T'_none_iff. exact Hxx.
+  Qed.
 End EndToEnd.
